@@ -404,6 +404,42 @@ func c12Identity(c *Ctx) {
 		})
 		c.Check(n > 0 && len(bad) == 0, "C12.2", "serviceImpl."+x.name+": sender id from the authenticated peer", p.FuncPos(fn),
 			"the message's ID is PeerIDFromContext(ctx) (for Kauri-relayed proposals: the proposer id carried by the message)", "ID assigned from "+join(bad)+" (sites: "+itoa(n)+")")
+		if x.name == "Propose" {
+			// the proposer written into the decoded block (it is part of the block's hash) is the id the proposal is attributed to
+			strip := func(v ssa.Value) ssa.Value {
+				for i := 0; i < 4; i++ {
+					switch y := v.(type) {
+					case *ssa.ChangeType:
+						v = y.X
+					case *ssa.Convert:
+						v = y.X
+					}
+				}
+				return v
+			}
+			var idVal, propVal ssa.Value
+			nProp := 0
+			eachInstr(fn, func(in ssa.Instruction) {
+				st, ok := in.(*ssa.Store)
+				if !ok {
+					return
+				}
+				fa, ok := st.Addr.(*ssa.FieldAddr)
+				if !ok {
+					return
+				}
+				switch fieldName(fa.X.Type(), fa.Field) {
+				case x.field:
+					idVal = strip(st.Val)
+				case "hs/internal/proto/hotstuffpb.Block.Proposer":
+					nProp++
+					propVal = strip(st.Val)
+				}
+			})
+			c.Check(nProp == 1 && idVal != nil && propVal == idVal, "C12.2", "serviceImpl.Propose: the block's proposer is the id the proposal is attributed to", p.FuncPos(fn),
+				"Block.Proposer and ProposeMsg.ID are assigned the same value (the authenticated peer, or for a Kauri-relayed proposal the carried proposer id)",
+				"Block.Proposer and ProposeMsg.ID are assigned different values: for a proposal relayed down a Kauri tree the decoded block gets the relayer as proposer, i.e. another hash than the block the proposer signed")
+		}
 	}
 }
 
